@@ -17,6 +17,12 @@ pub mod spec_proofs {
     }
     /// the documented rules, written from the property statement and the doc comment of CannotDerive (not from the code)
     fn spec(t: DeriveTrait, ctx: &BindgenContext, v1: u8, v2: u8) -> u8 {
+        let r = spec_rules(t, ctx, v1, v2);
+        let ty = ctx.items[X].as_type().unwrap();
+        // over-aligned types may need a padding array longer than 32, which only has a hand-written Default
+        if r == YES && t == DeriveTrait::Default && ty.layout.map_or(false, |l| l.align > 32) { MANUALLY } else { r }
+    }
+    fn spec_rules(t: DeriveTrait, ctx: &BindgenContext, v1: u8, v2: u8) -> u8 {
         let item = &ctx.items[X]; let ty = item.as_type().unwrap();
         // a type the user blocklisted: never derived through unless the user vouches for it
         if !ctx.allow.present[X] {
@@ -27,7 +33,7 @@ pub mod spec_proofs {
         let excluded = match t { DeriveTrait::Copy => item.fl.no_copy, DeriveTrait::Debug => item.fl.no_debug, DeriveTrait::Default => item.fl.no_default, DeriveTrait::Hash => item.fl.no_hash, DeriveTrait::PartialEqOrPartialOrd => item.fl.no_partialeq };
         if excluded { return NO; }
         let is_union = matches!(&ty.kind, TypeKind::Comp(c) if c.kind == CompKind::Union);
-        let r = if item.fl.opaque {
+        if item.fl.opaque {
             // an opaque blob derives everything, except that a Rust union only derives Copy
             if t != DeriveTrait::Copy && is_union && ctx.options.untagged_union { NO } else { YES }
         } else { match &ty.kind {
@@ -59,9 +65,7 @@ pub mod spec_proofs {
             TypeKind::TemplateAlias(_, params) => if t == DeriveTrait::PartialEqOrPartialOrd && params.n >= 1 { mx(v1, v2) } else { v1 },
             TypeKind::TemplateInstantiation(_) => mx(v1, v2),
             TypeKind::Opaque | TypeKind::UnresolvedTypeRef(..) => YES,   // not reachable: Opaque items are opaque
-        } };
-        // over-aligned types may need a padding array longer than 32, which only has a hand-written Default
-        if r == YES && t == DeriveTrait::Default && ty.layout.map_or(false, |l| l.align > 32) { MANUALLY } else { r }
+        } }
     }
     fn spec_step(t: DeriveTrait, tag: u8, child1: u8) {
         let ctx = mk_ctx(tag, child1);
